@@ -104,7 +104,8 @@ def bcast(vals, shape, to):
 
 # -- operands -------------------------------------------------------------------------------------------
 
-NUM_KINDS = ["pyint", "pyfloat", "npfloat", "npint", "arr0", "arr", "qdimless", "npfloat32", "npint32", "list", "qscaled"]
+NUM_KINDS = ["pyint", "pyfloat", "npfloat", "npint", "arr0", "arr", "qdimless", "npfloat32", "npint32", "list", "qscaled", "pycomplex_real",
+             "npcomplex_real"]  # (the last two: a real number held in a complex type, e.g. complex(0.5, 0))
 # dimensionless Quantities in a SCALED unit: the factor k written as (k / scale) [unit]; only (k, unit) pairs whose conversion to the unscaled
 # value is exact in doubles are used (so that the exact factor is not in doubt)
 SCALED_UNITS = {"percent": (u.percent, 100.0), "MHz/GHz": (u.MHz / u.GHz, 1000.0), "milli": (u.Unit(1e-3), 1000.0)}
@@ -167,6 +168,10 @@ def mk_number(op):
         return np.int32(vals[0])
     if k == "npfloat32":
         return np.float32(vals[0])
+    if k == "pycomplex_real":
+        return complex(float(vals[0]), 0.0)
+    if k == "npcomplex_real":
+        return np.complex128(complex(float(vals[0]), 0.0))
     if k == "list":
         return np.array(vals, dtype=np.float64).reshape(op["shape"]).tolist()
     if k == "pyfloat":
@@ -187,7 +192,7 @@ def mk_number(op):
 
 
 def number_exact(op):
-    if op["kind"] in ("pyint", "npint", "pyfloat", "npfloat", "arr0", "qdimless", "npint32", "npfloat32", "qscaled"):
+    if op["kind"] in ("pyint", "npint", "pyfloat", "npfloat", "arr0", "qdimless", "npint32", "npfloat32", "qscaled", "pycomplex_real", "npcomplex_real"):
         return [F(op["vals"][0])], []
     return [F(v) for v in op["vals"]], op["shape"]
 
@@ -349,7 +354,11 @@ def muldiv_case(draw):
     lg = draw(st.integers(0, 10))
     p = draw(phase_spec(max_exp=51 - lg))
     k = draw(number_operand(p["shape"], max_abs_log2=lg, nonzero=True))
-    return {"p": p, "k": k, "op": draw(st.sampled_from(["mul", "rmul", "div", "imul", "idiv", "mul_out"])), "lg": lg}
+    op = draw(st.sampled_from(["mul", "rmul", "div", "imul", "idiv", "mul_out"]))
+    if op in ("mul", "rmul", "imul", "mul_out") and not k["imag"] and k["kind"] in ("pyfloat", "npfloat", "arr0", "pycomplex_real", "npcomplex_real") \
+            and draw(st.integers(0, 3)) == 0:
+        k["vals"] = [draw(st.sampled_from([2.0**-50, -(2.0**-45), 1e-15, 3e-14, 2.0**-30]))]  # a tiny factor is a factor all the same
+    return {"p": p, "k": k, "op": op, "lg": lg}
 
 
 def run_muldiv(case, stt):
@@ -438,7 +447,7 @@ def fd_case(draw):
     else:
         dkind = "qcycle" if dkind == "qarr" else dkind
         dv = [d]
-    return {"p": p, "dkind": dkind, "d": dv, "op": draw(st.sampled_from(["floordiv", "mod", "divmod", "np_divmod"]))}
+    return {"p": p, "dkind": dkind, "d": dv, "op": draw(st.sampled_from(["floordiv", "mod", "divmod", "np_divmod", "imod", "rem_out_self", "rem_out_other", "divmod_out_self"]))}
 
 
 def run_fd(case, stt):
@@ -469,14 +478,33 @@ def run_fd(case, stt):
     what = "phase %s %s" % (op, case["dkind"])
     with lib(what):
         q = r = None
+        p_in = p.copy()  # (the in-place forms below overwrite their dividend)
         if op == "floordiv":
             q = p // d
         elif op == "mod":
             r = p % d
         elif op == "divmod":
             q, r = divmod(p, d)
+        elif op == "imod":
+            r = p.copy()
+            keep = r
+            r %= d
+            check(r is keep, "{}: in-place %= rebound the name", what)
+        elif op == "rem_out_self":
+            tgt = p.copy()
+            r = np.remainder(tgt, d, out=tgt)
+            check(r is tgt, "{}: np.remainder(p, d, out=p) did not return p", what)
+        elif op == "rem_out_other":
+            tgt = pb.Phase(np.ones(np.shape(p)), np.full(np.shape(p), 0.25))
+            r = np.remainder(p, d, out=tgt)
+            check(r is tgt, "{}: np.remainder(..., out=phase) did not return the given Phase", what)
+        elif op == "divmod_out_self":
+            tgt, qbuf = p.copy(), np.zeros(np.shape(p))
+            q, r = np.divmod(tgt, d, out=(qbuf, tgt))
+            check(r is tgt, "{}: np.divmod(p, d, out=(q, p)) did not return p as the remainder", what)
         else:
             q, r = np.divmod(p, d)
+        check(np.array_equal(p.view(np.ndarray), p_in.view(np.ndarray)), "{}: the dividend was modified", what)
         # the others for mutual consistency
         q2, r2 = p // d, p % d
     q = q2 if q is None else q
